@@ -736,6 +736,11 @@ func censusSignatureReads(w *World, r *Report) []*Obligation {
 							whole = append(whole, fmt.Sprintf("%s passes the certificate to %s (%s)", funcDisplayName(fn), callee.String(), posStr(w.Fset, x.Pos())))
 						}
 					}
+				case *ssa.UnOp:
+					// `cc := *c`: a copy of the whole struct; its fields are then read without a FieldAddr
+					if x.Op == token.MUL && isX509Cert(x.X.Type()) {
+						whole = append(whole, fmt.Sprintf("%s copies the whole certificate struct (%s)", funcDisplayName(fn), posStr(w.Fset, x.Pos())))
+					}
 				case *ssa.MakeInterface:
 					if isX509Cert(x.X.Type()) {
 						whole = append(whole, fmt.Sprintf("%s boxes the certificate into an interface (%s)", funcDisplayName(fn), posStr(w.Fset, x.Pos())))
